@@ -13,7 +13,7 @@ import (
 
 func init() {
 	checks["C05"] = checkC05
-	rules["C05"] = "span-marking differential against fmt: every scalar leaf in each of its classifications (unsafe, Safe(), SafeValue type, registered type, Unsafe(SafeValue), SafeFormatter) alone, in all ordered pairs at top level and inside []interface{}, map, struct, nested shapes, x directives valid for the operand, x all 8 registry configurations; distinct = distinct outputs"
+	rules["C05"] = "span-marking differential against fmt: every scalar leaf in each of its classifications (unsafe, Safe(), SafeValue type, registered type, Unsafe(SafeValue), SafeFormatter) alone, in all ordered pairs at top level and inside []interface{}, map, struct, nested shapes, x directives valid for the operand, x registry configurations (3 groups of own types and the built-in types string, int, bool, float64); distinct = distinct outputs"
 	replayers["C05/cells"] = func(c *Ctx, raw json.RawMessage) string {
 		var cs c05Case
 		json.Unmarshal(raw, &cs)
@@ -56,7 +56,9 @@ func (safeStrerT) SafeValue()       {}
 func (s safeStrerT) String() string { return "SS<" + s.s + ">" }
 func (c05safeKey) SafeValue()       {}
 
-var c05RegTypes = [][]reflect.Type{{reflect.TypeOf(regIntT(0)), reflect.TypeOf(dblSafeT(0)), reflect.TypeOf(dblSafeStrT{})}, {reflect.TypeOf(regStrT2(""))}, {reflect.TypeOf(regStrerT{}), reflect.TypeOf(regIntStrerT(0))}}
+var c05RegTypes = [][]reflect.Type{{reflect.TypeOf(regIntT(0)), reflect.TypeOf(dblSafeT(0)), reflect.TypeOf(dblSafeStrT{})}, {reflect.TypeOf(regStrT2(""))}, {reflect.TypeOf(regStrerT{}), reflect.TypeOf(regIntStrerT(0))},
+	// built-in types can be registered too: then every plain operand of that exact type is safe, on every path
+	{reflect.TypeOf(""), reflect.TypeOf(0), reflect.TypeOf(true), reflect.TypeOf(0.5)}}
 
 func c05SetConfig(cfg int) {
 	rfmt.VerifResetSafeTypes()
@@ -131,7 +133,12 @@ func c05MakeLeaves() []c05Leaf {
 		{"namedStr", namedStr("ns"), nil},
 	}
 	for _, s := range scalars {
-		add(c05Leaf{Name: "unsafe " + s.name, Redact: s.v, Fmt: s.v, RegIdx: -1})
+		reg := -1
+		switch s.v.(type) {
+		case string, int, bool, float64:
+			reg = 3 // safe iff the built-in type itself is registered
+		}
+		add(c05Leaf{Name: "unsafe " + s.name, Redact: s.v, Fmt: s.v, RegIdx: reg})
 		add(c05Leaf{Name: "Safe(" + s.name + ")", Redact: redact.Safe(s.v), Fmt: s.v, Safe: true, RegIdx: -1})
 		if s.sv != nil {
 			add(c05Leaf{Name: "SafeValue " + s.name, Redact: s.sv, Fmt: s.sv, Safe: true, RegIdx: -1})
@@ -433,7 +440,7 @@ func c05Eval(cs c05Case, seen func(string)) (string, string) {
 	if bytes.Equal(got, want) {
 		return "", ""
 	}
-	desc := fmt.Sprintf("registry config %03b, shape %q, leaves (%s, %s): Sprintf(%q) = %q; outside envelopes %q, want %q (fmt with unsafe extents removed; fmt printed %q)", cs.Config, sh.Name, la.Name, lb.Name, format, out, got, want, ref)
+	desc := fmt.Sprintf("registry config %04b, shape %q, leaves (%s, %s): Sprintf(%q) = %q; outside envelopes %q, want %q (fmt with unsafe extents removed; fmt printed %q)", cs.Config, sh.Name, la.Name, lb.Name, format, out, got, want, ref)
 	return "cell:" + sh.Name, desc
 }
 
@@ -442,11 +449,11 @@ func checkC05(c *Ctx) {
 	nl := len(leaves)
 	dsOne := quickDirectives()
 	dsPair := midDirectives()
-	configs := []int{0, 7}
+	configs := []int{0, 15}
 	if !c.Quick() {
 		dsPair = quickDirectives()
 		dsPair.Wids = []int{0, 3}
-		configs = seq(8)
+		configs = append(seq(8), 8, 15)
 	}
 	top2 := DirectiveSpace{FlagSets: []int{0, 4}, Wids: []int{0, 3}, Precs: []int{0}, Verbs: []rune("vdsxq")}
 	if !c.Quick() {
@@ -478,7 +485,7 @@ func checkC05(c *Ctx) {
 			}
 		}
 		// one operand, full quick directive space
-		c.Section(fmt.Sprintf("C05/cells/cfg%03b/single", cfg), map[string]interface{}{"leaves": nl, "directives": dsOne.Size(), "registry_config": cfg}, dsOne.Size(), func(i int, w *Worker) {
+		c.Section(fmt.Sprintf("C05/cells/cfg%04b/single", cfg), map[string]interface{}{"leaves": nl, "directives": dsOne.Size(), "registry_config": cfg}, dsOne.Size(), func(i int, w *Worker) {
 			d := dsOne.Get(i)
 			for a := 0; a < nl; a++ {
 				cs := c05Case{Config: cfg, Shape: 0, LA: a, LB: a, D: d}
@@ -489,7 +496,7 @@ func checkC05(c *Ctx) {
 			}
 		})
 		// containers: all ordered pairs of leaves
-		c.Section(fmt.Sprintf("C05/cells/cfg%03b/shapes", cfg), map[string]interface{}{"leaves": nl, "second_leaves": len(second), "shapes": len(c05Shapes) - 2, "typed_slot_cases": nFit, "directives": dsPair.Size(), "registry_config": cfg}, dsPair.Size()*nl, func(i int, w *Worker) {
+		c.Section(fmt.Sprintf("C05/cells/cfg%04b/shapes", cfg), map[string]interface{}{"leaves": nl, "second_leaves": len(second), "shapes": len(c05Shapes) - 2, "typed_slot_cases": nFit, "directives": dsPair.Size(), "registry_config": cfg}, dsPair.Size()*nl, func(i int, w *Worker) {
 			d := dsPair.Get(i / nl)
 			a := i % nl
 			for _, b := range second {
@@ -519,7 +526,7 @@ func checkC05(c *Ctx) {
 		})
 		// two top-level operands: restore logic between operands
 		n2 := top2.Size()
-		c.Section(fmt.Sprintf("C05/cells/cfg%03b/top2", cfg), map[string]interface{}{"leaves": nl, "second_leaves": len(second), "directive_pairs": n2 * n2, "registry_config": cfg}, n2*n2, func(i int, w *Worker) {
+		c.Section(fmt.Sprintf("C05/cells/cfg%04b/top2", cfg), map[string]interface{}{"leaves": nl, "second_leaves": len(second), "directive_pairs": n2 * n2, "registry_config": cfg}, n2*n2, func(i int, w *Worker) {
 			d1, d2 := top2.Get(i/n2), top2.Get(i%n2)
 			for a := 0; a < nl; a++ {
 				for _, b := range second {
